@@ -904,7 +904,7 @@ fn hash128(bytes: &[u8]) -> u128 {
 // ---------------------------------------------------------------------------------------------
 // breadth-first exploration
 // ---------------------------------------------------------------------------------------------
-const MAXD: usize = 10;
+const MAXD: usize = 12;
 #[derive(Clone, Copy)]
 struct Node {
     hist: [u8; MAXD],
